@@ -6,10 +6,10 @@ import DisjointImpls.Lemmas.Refine
 namespace DI
 
 /-- instantiation acts component-wise on a header -/
-theorem inst_groupId (ρ : Subst) (hρ : noEx ρ) (tr s tr' s' : T)
+theorem inst_groupId (ρ : Subst) (tr s tr' s' : T)
     (h : inst ρ (.node "ImplGroupId" [] [tr, s]) = .node "ImplGroupId" [] [tr', s']) :
     inst ρ tr = tr' ∧ inst ρ s = s' := by
-  rw [inst_node ρ hρ] at h
+  rw [inst_other ρ (by rfl)] at h
   simp only [instL] at h
   injection h with _ _ h3
   injection h3 with h4 h5
@@ -18,7 +18,7 @@ theorem inst_groupId (ρ : Subst) (hρ : noEx ρ) (tr s tr' s' : T)
 
 /-- a selected member's header instantiates exactly to the query -/
 theorem C16_exact_instantiation (W : World) (F : Family) (m : Member) (q : T) :
-    genSel W F m q → ∃ ρ, noEx ρ ∧ inst ρ m.blk.hdr = q := by
+    genSel W F m q → ∃ ρ, wkB ρ m.blk = true ∧ inst ρ m.blk.hdr = q := by
   intro h
   obtain ⟨ρ, h0, h1, _⟩ := gen_sub_spec W F m q h
   exact ⟨ρ, h0, h1⟩
@@ -27,16 +27,16 @@ theorem C16_exact_instantiation (W : World) (F : Family) (m : Member) (q : T) :
     has `args` instantiating to `args'` and `S` to `S'` under one substitution -/
 theorem C16_trait_args_exact (W : World) (F : Family) (m : Member) (tr s tr' s' : T)
     (hh : m.blk.hdr = .node "ImplGroupId" [] [tr, s]) :
-    genSel W F m (.node "ImplGroupId" [] [tr', s']) → ∃ ρ, noEx ρ ∧ inst ρ tr = tr' ∧ inst ρ s = s' := by
+    genSel W F m (.node "ImplGroupId" [] [tr', s']) → ∃ ρ, wkB ρ m.blk = true ∧ inst ρ tr = tr' ∧ inst ρ s = s' := by
   intro h
   obtain ⟨ρ, h0, h1⟩ := C16_exact_instantiation W F m _ h
   rw [hh] at h1
-  exact ⟨ρ, h0, inst_groupId ρ h0 tr s tr' s' h1⟩
+  exact ⟨ρ, h0, inst_groupId ρ tr s tr' s' h1⟩
 
 /-- a query whose trait-argument part is an instance of no instantiation of the member's trait path is not
     selected, whatever its self type -/
 theorem C16_other_trait_args_not_selected (W : World) (F : Family) (m : Member) (tr s tr' s' : T)
-    (hh : m.blk.hdr = .node "ImplGroupId" [] [tr, s]) (hne : ∀ ρ, noEx ρ → inst ρ tr ≠ tr') :
+    (hh : m.blk.hdr = .node "ImplGroupId" [] [tr, s]) (hne : ∀ ρ, wkB ρ m.blk = true → inst ρ tr ≠ tr') :
     ¬ genSel W F m (.node "ImplGroupId" [] [tr', s']) := by
   intro h
   obtain ⟨ρ, h0, h1, _⟩ := C16_trait_args_exact W F m tr s tr' s' hh h
@@ -44,30 +44,31 @@ theorem C16_other_trait_args_not_selected (W : World) (F : Family) (m : Member) 
 
 /-- independent instantiations: two families whose headers have no common instance never both answer a query -/
 theorem C16_independent_instantiations (W : World) (F1 F2 : Family) (m1 m2 : Member) (q : T)
-    (hd : ¬ ∃ τ1 τ2, noEx τ1 ∧ noEx τ2 ∧ inst τ1 F1.hdr = inst τ2 F2.hdr) :
+    (hd : ¬ ∃ τ1 τ2, wkF τ1 F1 = true ∧ wkF τ2 F2 = true ∧ inst τ1 F1.hdr = inst τ2 F2.hdr) :
     genSel W F1 m1 q → ¬ genSel W F2 m2 q := by
   rintro ⟨τ1, _, n1, e1, _⟩ ⟨τ2, _, n2, e2, _⟩
   exact hd ⟨τ1, τ2, n1, n2, e1.trans e2.symm⟩
 
 /-- instantiation does not touch a leaf -/
-theorem inst_leaf (σ : Subst) (h : noEx σ) (k : String) (as : List String) : inst σ (.node k as []) = .node k as [] := by
-  rw [inst_node σ h]; simp [instL]
+theorem inst_leaf (σ : Subst) (k : String) (as : List String) : inst σ (.node k as []) = .node k as [] := by
+  rw [inst_other σ (by unfold isGA; split <;> simp_all)]; simp [instL]
 
-/-- non-vacuity: `impl Tr<u8> for T` and `impl Tr<u16> for T` — the headers have no common instance, so the two
-    families are never selected for the same query; and a member for `Tr<u8>` is not selected for `Tr<u16>` -/
+/-- non-vacuity: `impl Tr<u8> for T` and `impl Tr<u16> for T` — the headers have no common instance (under any two
+    substitutions), so the two families are never selected for the same query; and a member for `Tr<u8>` is not
+    selected for `Tr<u16>` -/
 example :
     let tru8 : T := .node "Tr" [] [.node "u8" [] []]
     let tru16 : T := .node "Tr" [] [.node "u16" [] []]
-    (¬ ∃ τ1 τ2, noEx τ1 ∧ noEx τ2 ∧
+    (¬ ∃ τ1 τ2 : Subst,
       inst τ1 (.node "ImplGroupId" [] [tru8, .tparam "_ŠČ0"]) = inst τ2 (.node "ImplGroupId" [] [tru16, .tparam "_ŠČ0"])) ∧
-    (∀ ρ, noEx ρ → inst ρ tru8 ≠ tru16) := by
+    (∀ ρ : Subst, inst ρ tru8 ≠ tru16) := by
   refine ⟨?_, ?_⟩
-  · rintro ⟨τ1, τ2, n1, n2, h⟩
-    rw [inst_node τ1 n1, inst_node τ2 n2] at h
-    simp only [instL, inst_node τ1 n1, inst_node τ2 n2] at h
+  · rintro ⟨τ1, τ2, h⟩
+    rw [inst_other τ1 (by rfl), inst_other τ2 (by rfl)] at h
+    simp only [instL, inst_other τ1 (k := "Tr") (by rfl), inst_other τ2 (k := "Tr") (by rfl), inst_leaf] at h
     simp at h
-  · intro ρ hρ h
-    simp only [inst_node ρ hρ, instL] at h
+  · intro ρ h
+    simp only [inst_other ρ (k := "Tr") (by rfl), instL, inst_leaf] at h
     simp at h
 
 end DI
